@@ -1,6 +1,12 @@
+-- Root of the shared core of the model library.  The per-property developments
+-- (MobiusModel/*.lean beyond these, Props/Cxx.lean) are built as their own targets by
+-- `bin/check`: they were written in parallel and some reuse short names in the common
+-- `Mobius` namespace, so they are not meant to be imported together.
 import MobiusModel.Bytes
 import MobiusModel.Hex
 import MobiusModel.Wire
+import MobiusModel.WireLemmas
+import MobiusModel.WireLemmas2
 import MobiusModel.Drain
 import MobiusModel.Scan
 import MobiusModel.PathAlg
